@@ -83,7 +83,7 @@ CHECKS = {
         'Theorems (Props_C04.v, closed; WFin w, cap_nonneg, capacities <= 24h-equivalent units [cap_small, shown necessary by C04_cap_small_needed], forward/backward = Ok): C04_conserve_once, C04_window, C04_nothing, C04_fixed, both schedulers; c04_b <-> statement; model output passes the oracle.',
         SCHED_TRUST, '4.4'),
     'C06': (
-        'Coq proof that every member gets both dates and that the forward pass does not read the clock when clock <= project start (equal final states for any two such clocks); purity, shape and repeatability are decided by the differential run (stated as such) + the recursive pass (both schedulers) translated from the source text on every run and proved related to the model pass for every input; the property transported to the translated source (gen/SrcPass.v, C06_src_*_pass)',
+        'Coq proof that every member gets both dates and that the forward pass does not read the clock when clock <= project start (equal final states for any two such clocks); purity, shape and repeatability are decided by the differential run (stated as such) + the recursive pass (both schedulers) translated from the source text on every run and proved related to the model pass for every input; the property transported to the translated source (gen/SrcPass.v, C06_src_*_pass); calc itself and __prepare_tasks translated and tied to forward / backward (C06_src_*_calc, C06_src_prepare_*)',
         'Theorems (Props_C06.v, closed): C06_dates_forward/backward, C06_forward/backward_reaches_all, C06_clock (whole final state equal for two clocks <= project start when both runs return), C06_clock_pass, C06_clock_outcome. '
         'Input purity, same ids/hierarchy/links/attributes in the result, and equal results of repeated calls are true of any Gallina function by construction: they are checked on the implementation only (snapshots before/after, calc twice on one scheduler, once on a fresh one, once with another clock).',
         SCHED_TRUST, '4.6'),
@@ -109,7 +109,7 @@ CHECKS = {
         'C08_indep / C08_indep_set (balancing off: deleting - or blanking - any unrelated set of tasks, closed under hierarchy and links: isolated leaves, linked clusters, whole subtrees - leaves every other task\'s dates unchanged; the second run need not be assumed), c08_task_b (incl. leaves without work) / c08_order_b <-> statements, model output passes the oracle.',
         SCHED_TRUST + ' Leaves with user-fixed start or end are outside the C08 theorems (free_leaf).', '4.8'),
     'C14': (
-        'Coq proof that both scheduler models answer Ok or Err and never Crash under WFin (fuel suffices, no None arithmetic, no empty max/min, divisors positive), that each unschedulable class answers Err and that Err has no other cause (completeness) + outcome-class correspondence incl. an extra stream of unschedulable inputs; recursion depth probed on the implementation (known finding) + the four day-by-day loops translated from the source text on every run: proved to end within their fuel and to raise nothing but RuntimeError (gen/SrcFill.v, C14_src_*_outcome) + the recursive pass (both schedulers) translated from the source text on every run and proved related to the model pass for every input; the property transported to the translated source (gen/SrcPass.v, C14_src_*_pass_total / _outcome: never an exception other than RuntimeError, never out of fuel)',
+        'Coq proof that both scheduler models answer Ok or Err and never Crash under WFin (fuel suffices, no None arithmetic, no empty max/min, divisors positive), that each unschedulable class answers Err and that Err has no other cause (completeness) + outcome-class correspondence incl. an extra stream of unschedulable inputs; recursion depth probed on the implementation (known finding) + the four day-by-day loops translated from the source text on every run: proved to end within their fuel and to raise nothing but RuntimeError (gen/SrcFill.v, C14_src_*_outcome) + the recursive pass (both schedulers) translated from the source text on every run and proved related to the model pass for every input; the property transported to the translated source (gen/SrcPass.v, C14_src_*_pass_total / _outcome: never an exception other than RuntimeError, never out of fuel; calc and its two pre-checks translated too: C14_src_*_calc_outcome, C14_src_validate_graph_isolation, C14_src_check_no_end_dates_in_future)',
         'Theorems (Props_C14.v, closed): C14_total_forward/backward, C14_compute_no_crash, C14_divisors_positive, C14_err_isolated / _future_end / _no_capacity / _cycle / _hierarchy_cycle, C14_reentry, C14_err_causes_*, C14_complete_* (Err only from the four causes, read as: no reachable machine state is stuck). '
         'Known finding F16 (chains deeper than the interpreter recursion limit raise RecursionError) is probed on every run and reported as KNOWN-FINDING; the model has no interpreter stack.',
         SCHED_TRUST, '4.14'),
